@@ -95,10 +95,10 @@ def run(repo, rep, tier):
         "argument from the receiver's own corresponding field, reaches child slots only through zero()/templates and "
         "reads no content; (R1.5) the update fill performs (finite datum) equals __add__ with the singleton produced by "
         "filling an empty node, as an identity of rational functions - for the non-empty and the empty node; (R1.6) "
-        "defs.combine/increment. Decides the algebraic shape of merge; associativity and rounding are not decided."
+        "defs.combine/increment; (R1.7) the leaf formulas composed with themselves are associative. Decides the algebraic shape of merge over the reals; rounding is not decided."
     )
     rep.not_decided += [
-        "associativity (needs composing the merge with itself)",
+        "associativity of container merges beyond the leaves' formulas (follows from per-key/per-slot recursion, R1.1/R1.1b)",
         "the homomorphism for data-dependent key sets and floating-point rounding",
         "reachable NaN/inf values beyond the NaN-as-empty discipline",
     ]
@@ -110,6 +110,7 @@ def run(repo, rep, tier):
     r3 = rep.rule("R1.3", "NaN-initialised fields: two-sided empty guard or NaN-as-missing helper", floor=5)
     r4 = rep.rule("R1.4", "zero() is parameter-preserving and content-free", floor=40)
     r5 = rep.rule("R1.5", "fill == __add__ with a singleton, as rational functions (non-empty and empty node)", floor=10)
+    r7 = rep.rule("R1.7", "leaf merge formulas are associative (composition of the extracted rational functions)", floor=6)
     r6 = rep.rule("R1.6", "defs.combine returns a + b; defs.increment fills and returns its argument", floor=2)
     for c in prims:
         m = models[c.name]
@@ -167,6 +168,7 @@ def run(repo, rep, tier):
         # ---------------- R1.2 / R1.5 on the leaves with formulas
         if c.name in FORMULA_LEAVES:
             formulas(repo, rep, r2, r5, c, m, add)
+            associativity(repo, rep, r7, c, m, add)
         else:
             # entries of every class: symmetric sum
             try:
@@ -341,6 +343,30 @@ def formulas(repo, rep, r2, r5, c, m, add):
         if not ok:
             rep.finding("R1.5", fill, fill.node, f"`{fld}` after the first fill ({single[fld]!r}) differs from zero() + singleton "
                         f"({viaadd0!r})", stmt=f"{fld}: first fill")
+
+
+def associativity(repo, rep, r7, c, m, add):
+    """(a + b) + c == a + (b + c) on the all-non-empty branch, by composing the extracted merge formula with itself."""
+    sn, on = add.params
+    fields = m.acc
+    A = {f: Rat.sym(f"A.{f}") for f in fields}
+    B = {f: Rat.sym(f"B.{f}") for f in fields}
+    C = {f: Rat.sym(f"C.{f}") for f in fields}
+    sc = lambda: LeafScenario(False, False, sn, on)
+    try:
+        ab = add_state(add, fields, sc(), self_state=A, other_state=B)
+        bc = add_state(add, fields, sc(), self_state=B, other_state=C)
+        left = add_state(add, fields, sc(), self_state=ab, other_state=C)
+        right = add_state(add, fields, sc(), self_state=A, other_state=bc)
+    except Unsupported as e:
+        raise AnalysisError(f"{c.name}: formula composition failed: {e}")
+    for fld in fields:
+        ok = left[fld].equals(right[fld])
+        r7.ob(ok, f"{c.name}.__add__: ((a+b)+c).{fld} == (a+(b+c)).{fld} as rational functions of the nine operand fields")
+        if not ok:
+            rep.finding("R1.7", add, add.node, f"the combining expression of `{fld}` is not associative: composing the merge with itself, "
+                        f"(a + b) + c gives {left[fld]!r} but a + (b + c) gives {right[fld]!r}; the grouping of partial results "
+                        f"would change the aggregate", stmt=f"{fld}: not associative")
 
 
 def nan_discipline(repo, c, add, fld):
